@@ -305,7 +305,78 @@ def check_modules(chk, rng, tier):
                 chk.disagree("tree.pickle/restore_checkpoint", {"case": case, "model_pickle": m_pickle[:8], "model_restore_checkpoint": (m_rc or [])[:8], "file": file_t[:8]})
             # the pre-repair variant of the model (no restore target) must be wrong exactly for the modules with more than ten list entries
             chk.count("untargeted_restore_would_permute" if m_unt != file_t else "untargeted_restore_would_be_identity")
+        checkpoint_histories(chk, rng, tier, Z, root)
     finally:
         shutil.rmtree(root, ignore_errors=True)
     chk.count("module_types", len(Z))
     return sorted(Z)
+
+
+def checkpoint_histories(chk, rng, tier, Z, root):
+    """One checkpointing logger over a whole history of record_epoch calls (several training runs logged through the same
+    logger, so the step counter restarts and revisits values; changing parameters between calls): every path the logger
+    lists must still restore to the parameters the module had when that path was written."""
+    from rl_blox.blox.probabilistic_ensemble import restore_checkpoint
+    from rl_blox.logging.checkpointer import OrbaxCheckpointer
+    names = sorted(Z)
+    names = [names[i] for i in rng.choice(len(names), size=3 if tier == "quick" else 8, replace=False)]
+    for hi, name in enumerate(names):
+        make, fwd = Z[name]
+        freq = int([1, 2, 5, 3][hi % 4])
+        ck = OrbaxCheckpointer(checkpoint_dir=f"{root}/hist-{hi}")
+        ck.define_experiment("Env", "C19h")
+        ck.define_checkpoint_frequency(name, freq)
+        m = make(3 + hi)
+        steps = []
+        for _run in range(2 + hi % 2):
+            s = 0
+            for _ in range(int(rng.integers(3, 7))):
+                s += int(rng.integers(1, 4))
+                steps.append(s)
+        case = {"module": name, "frequency": freq, "steps": steps, "seed": chk.seed}
+        chk.case(("ckpt-history", name, freq, tuple(steps)))
+        chk.count("checkpoint_history_cases")
+        saved = []
+        hist = []         # (step, was a checkpoint written?, index of the written value) - the history the model replays
+        ok = True
+        for s in steps:
+            perturb(m, rng, "random")
+            n0 = len(ck.checkpoint_path[name])
+            ok, _ = chk.impl_call(f"C19:{name}:record_epoch-raised", {**case, "at_step": s}, ck.record_epoch, name, m, step=s)
+            if not ok:
+                break
+            paths = ck.checkpoint_path[name]
+            hist.append((s, len(paths) > n0, len(saved) if len(paths) > n0 else -1))
+            if len(paths) > n0:
+                saved.append((paths[-1], leaves_of(m), s))
+        if not ok:
+            continue
+        restored_ids = []
+        chk.count("checkpoint_history_saves", len(saved))
+        if len(ck.checkpoint_path[name]) != len(saved):
+            chk.fail(f"C19:{name}:checkpoint-history", "one record_epoch call listed more than one checkpoint path", {"case": case})
+            continue
+        for k, (path, ref, s) in enumerate(saved):
+            okr, mr = chk.impl_call(f"C19:{name}:restore_checkpoint-raised", {**case, "checkpoint": k}, restore_checkpoint, path, make(40 + hi))
+            if not okr:
+                break
+            lr = leaves_of(mr)
+            bad = [p for (p, a), (_, b) in zip(ref, lr) if a != b] if [p for p, _ in lr] == [p for p, _ in ref] else ["<tree structure>"]
+            if bad:
+                later = [j for j, (p2, _, _) in enumerate(saved) if j > k and os.path.normpath(p2) == os.path.normpath(path)]
+                chk.fail(f"C19:{name}:checkpoint-history",
+                         "a checkpoint listed by the checkpointing logger no longer restores to the parameters the module had when it was written"
+                         + (" (a later checkpoint was written to the same path)" if later else ""),
+                         {"case": case, "checkpoint_index": k, "written_at_step": s, "path": os.path.basename(os.path.normpath(path)),
+                          "leaves": bad[:6], "later_saves_to_the_same_path": later})
+                break
+            chk.count("checkpoint_history_restores")
+        # model: the checkpoint directory under the repository's naming rule (step and epoch counter)
+        for k, (path, ref, s) in enumerate(saved):
+            okr, mr = chk.impl_call(f"C19:{name}:restore_checkpoint-raised", {**case, "checkpoint": k}, restore_checkpoint, path, make(40 + hi))
+            lr = leaves_of(mr) if okr else None
+            restored_ids.append(next((j for j, (_, rj, _) in enumerate(saved) if lr is not None and [b for _, b in rj] == [b for _, b in lr]), None))
+        lit = llit(hist, lambda e: f"(({zlit(e[0])}, {'true' if e[1] else 'false'}), {zlit(e[2])})")
+        mres = chk.model_eval([f"(sl (so sz) (M.ck_restore_all M.name_step_epoch {lit}))"])[0]
+        if mres != restored_ids:
+            chk.disagree("checkpoint-directory", {"case": case, "history": [list(e) for e in hist], "impl_restored_save_index": restored_ids, "model": mres})
